@@ -87,6 +87,38 @@ def part_small(ck, n, G, D, seed, corrupt=None):
     ck.sample({"part": "small", "state": absstate.to_json(sorted(oracle, key=absstate.key_str)[-1]), "Z": oracle[sorted(oracle, key=absstate.key_str)[-1]]["Z"]})
 
 
+def part_histories(ck, n, G, D, seed, nwalks, steps):
+    """Edit histories on live objects (in-place walks through the samplers' edit grammar; a pruned subtree grafted into
+    several trees that all stay alive, as the prune-regraft sampler builds them): after every step the root vector and
+    every clone's vector of every live tree must equal TLC's exact grid marginal of the forest the tree then represents -
+    also the trees that were NOT edited in that step."""
+    from .. import treeadt
+    from phyclone.tree import FSCRPDistribution, TreeJointDistribution
+
+    tab = gridoracle.int_tables(n, D, G, seed + 31, lo=1, hi=6)
+    oracle, r = gridoracle.run_oracle("c02_hist", tab, check_def=False)
+    ck.add_tlc("GridOracle N=%d G=%d D=%d for edit histories" % (n, G, D), r)
+    data = gridoracle.data_from_tables(tab, outlier_prob=0.2)
+    rs = np.random.RandomState(seed + 5)
+    clear_caches()
+    nsteps = 0
+    for w in range(nwalks):
+        edges, issues = treeadt.walk(data, list(range(n)), steps, rs, TreeJointDistribution(FSCRPDistribution(0.9)), oracle=oracle)
+        nsteps += len(edges)
+        for kind, it in issues:
+            if kind in ("stale", "inconsistent"):
+                ck.violation("C02|history|%s|%s" % (kind, it["act"]["name"]), "after %s the vectors of a live tree (%s) are not the exact grid marginal of the forest it represents: %s" % (
+                    json.dumps(it["act"]), it.get("obj", "edited tree"), it["error"]), {"step": it.get("step"), "act": it["act"], "src": it.get("src")})
+                break
+            if kind == "exception" and "/phyclone/" in it.get("error", ""):
+                ck.violation("C02|history|exception", "edit %s raised %s" % (json.dumps(it["act"]), it["error"]), {"act": it["act"]})
+                break
+    ck.evaluations += nsteps
+    ck.traces_validated += nwalks
+    ck.nontrivial("histories:%d" % n)
+    ck.extra["history_steps"] = nsteps
+
+
 def compare_int(tree, key, oracle, G, offsets=None, tol=1e-9):
     o = oracle[key]
     K = len(key[0])
@@ -235,6 +267,7 @@ def run(corrupt=None):
         part_small(ck, 3, 6, 2, seed + 2)
     else:
         part_small(ck, 4, 4, 2, seed, corrupt)
+    part_histories(ck, 4, 4, 2, seed, (60 if thorough else 25), 60)
     # wide dynamic range, direct path
     part_poly(ck, 3, 5, 2, 40, seed, 2, "G5_B1e-40")
     part_poly(ck, 3, 4, 1, 12, seed, 3, "G4_B1e-12")
